@@ -248,11 +248,10 @@ def run(ctx):
         from .witness import run_witness
         run_witness(ctx, "C11")
     spec = json.load(open(os.path.join(VERIF, "spec", "commands.json")))
-    ctx.explanation = ("Finite-domain table proof. The match patterns of `TryFrom<u8> for Operation`, `TryFrom<u8> for VendorOperation`, "
-                       "`From<Operation> for u8` and `From<VendorOperation> for u8` are read from typed HIR (literals, evaluated consts, "
-                       "ranges, first-match order) and expanded by pattern semantics into total functions on 0..=255 / on the 14 variants; "
-                       "these are compared row by row with spec/commands.json and with each other (inverse, injective). The command switch "
-                       "of Request::deserialize is read as path literals per result site. Nothing is executed.")
+    ctx.explanation = ("Finite-domain table proof. `TryFrom<u8> for Operation` (with `VendorOperation::try_from` expanded at its call site) and `From<Operation> for u8` are summarised by "
+                       "path-sensitive value propagation over typed HIR (rules/sym.py); the comparisons on each path are interpreted as a set of bytes (rules/valueset.py: literals, evaluated consts, "
+                       "ranges, contains, lookups in literal tables), giving total functions on 0..=255 / on the 14 variants that are compared row by row with spec/commands.json and with each other "
+                       "(inverse, injective). The command switch of Request::deserialize is summarised the same way over the command byte (rules/dispatch.py). Nothing is executed.")
     ctx.rule = "one obligation per (byte | variant | dispatch arm | constructor site) per configuration; distinct = distinct (rule,key)"
     ctx.trusted = ["rustc 1.97 nightly type checker / const evaluator / match semantics", "cbor-smol 0.5.1 cbor_deserialize (payload decoding)"]
     ctx.assumptions = ["first-match semantics of `match`", "Operation::Vendor payload validity rests on VendorOperation's private constructor"]
